@@ -9,11 +9,14 @@ index) and, on a miss, `lookupPool` (sealed indexes); a rollover is one atomic s
 section).  "Published" = present in the published live index or a sealed index
 (`Bucket.published`, entries `Bucket.pubIdx`).  All theorems quantify over every schedule from the
 empty bucket that satisfies the input validity `SchedOk` (fresh event / transaction ids).
+Scan-start consistency under a concurrent rollover (`snapshot_consistent`, `snapshot_stable`,
+`split_snapshot_inconsistent_example`) is in `Props/C15Scan.lean`, same namespace.
 -/
 import SierraModel.Lemmas.ConcRead
 import SierraModel.Lemmas.ConcPubVer
 import SierraModel.Lemmas.ConcClash2
 import SierraModel.Lemmas.ConcExample
+import SierraModel.Props.C15Scan
 
 namespace SierraModel.C15
 open SierraModel.Store
